@@ -149,3 +149,31 @@ class Ctx:
         print("%s: %d obligations, %d discharged, %d violations (%d known), %d configurations, %.1fs" % (
             self.prop, self.obligations, self.discharged, len(new), len(listed), len(self.cfgs), wall))
         return 1 if new else 0
+
+
+class Probe:
+    """stand-in for Ctx used when one property's rule re-uses another's template as a discharge
+    rule: records failures, writes nothing"""
+
+    def __init__(self):
+        self.failed = []
+        self.count = 0
+
+    def oblige(self, key, ok, msg=None, cfg=None, where=None, nontrivial=True):
+        self.count += 1
+        if not ok:
+            self.failed.append((key, msg or key))
+        return ok
+
+    def violation(self, key, msg, cfg=None, where=None):
+        self.failed.append((key, msg))
+
+    def floor(self, name, got, minimum, cfg=None):
+        if got < minimum:
+            self.failed.append(("floor|" + name, "%s = %d < %d" % (name, got, minimum)))
+
+    def note(self, s):
+        pass
+
+    def sample(self, obj, limit=0):
+        pass
